@@ -721,6 +721,80 @@ def rule_brick(c, prog, R="C17.brick"):
         c.ok(R, "brickcolor:name-first-wins", len(order))
 
 
+SNIFF = re.compile(r"Deserializer::deserialize_any$|Deserializer::deserialize_ignored_any$|private::de::content::Content(Ref)?Deserializer|private::de::content::ContentVisitor|private::de::content::TaggedContentVisitor|private::de::FlatMapDeserializer")
+
+
+def rule_selfdesc(c, prog, R="C17.selfdesc"):
+    """bincode (and any format that is not self-describing) cannot tell a deserializer what comes next: code that asks
+    (deserialize_any; the buffered `Content` behind #[serde(untagged)], internally tagged enums and flatten) works for
+    JSON and MessagePack and fails for the compact encoding"""
+    c.rule(R, "shape-sniffing deserialisation (Deserializer::deserialize_any, serde's buffered Content used by untagged / internally tagged enums and flatten) is reached only where `deserializer.is_human_readable()` has been answered true — directly, or in every caller of the generated impl that contains it; elsewhere a value that decodes from JSON fails to decode from bincode")
+    from sa import flow
+    g = flow.CallGraph(prog)
+    callers = {}
+    for src, tgs in g.edges.items():
+        for t in tgs:
+            callers.setdefault(t, set()).add(src)
+
+    def guarded_sites(fn, pred):
+        """(guarded, unguarded) nodes of fn satisfying pred, where guarded = inside the then-branch of `if X.is_human_readable()`"""
+        hr_then = set()
+        hr_else = set()
+        for n in core.walk_fn(fn):
+            if n.get("k") == "If":
+                cnd = core.strip(n["c"])
+                neg = False
+                while cnd.get("k") == "Unary" and cnd.get("op") in ("!", "Not"):
+                    neg = not neg
+                    cnd = core.strip(cnd["e"])
+                if cnd.get("k") == "MethodCall" and cnd["m"] == "is_human_readable":
+                    t_ids = {id(y) for y in core.walk(n["t"])}
+                    f_ids = {id(y) for y in core.walk(n["f"])} if "f" in n else set()
+                    hr_then |= (f_ids if neg else t_ids)
+                    hr_else |= (t_ids if neg else f_ids)
+        gs, us = [], []
+        for n in core.walk_fn(fn):
+            if pred(n):
+                (gs if id(n) in hr_then else us).append(n)
+        return gs, us
+    n_sites = 0
+
+    def check(fn, pred, depth, trail):
+        nonlocal n_sites
+        gs, us = guarded_sites(fn, pred)
+        n_sites += len(gs) + len(us)
+        bad = []
+        for u in us:
+            # an unguarded site inside a generated / helper Deserialize impl is fine if every caller of that impl is guarded
+            cs = [prog.fns[p_] for p_ in callers.get(fn.path, ()) if p_ in prog.fns and prog.fns[p_].crate == "rbx_types" and prog.fns[p_].body is not None and not prog.fns[p_].path.startswith(fn.path)]
+            owner = fn.d.get("root") if fn.dk == "Closure" else None
+            if not cs or depth <= 0:
+                bad.append((fn, u, trail))
+                continue
+            for cf in cs:
+                sub = check(cf, lambda y, tgt=fn.path: y.get("k") in ("Call", "MethodCall") and (core.callee(y) == tgt), depth - 1, trail + [fn.path])
+                bad += sub
+        return bad
+    seen = set()
+    for fn in prog.lib_fns():
+        if fn.crate != "rbx_types" or fn.body is None:
+            continue
+        if not any(x.get("k") in ("Call", "MethodCall") and SNIFF.search((core.callee(x) or "") + "|" + (core.callee_generic(x) or "")) for x in core.walk_fn(fn)):
+            continue
+        bad = check(fn, lambda y: y.get("k") in ("Call", "MethodCall") and bool(SNIFF.search((core.callee(y) or "") + "|" + (core.callee_generic(y) or ""))), 3, [])
+        inst = f"sniff:{core.short(fn.path)}"
+        if bad:
+            bf, bn, trail = bad[0]
+            key = f"sniff|{fn.path.split('::<impl')[0]}"
+            if key in seen:
+                continue
+            seen.add(key)
+            c.violation(R, key, f"{core.short(fn.path)} asks the deserializer what comes next ({core.short(core.callee_generic(bn) or core.callee(bn) or '')}) without `is_human_readable()` having been answered true on the way{' (reached through ' + ' <- '.join(core.short(t_) for t_ in trail) + ')' if trail else ''}: the value decodes from JSON and MessagePack but bincode answers `deserialize_any is not supported`", core.loc(bn), instance=inst)
+        else:
+            c.ok(R, inst)
+    c.floor(R, n_sites, 1, "shape-sniffing deserialisation sites in rbx_types")
+
+
 def run(c, prog):
     rule_owned(c, prog)
     rule_text(c, prog)
@@ -728,6 +802,7 @@ def run(c, prog):
     rule_names(c, prog)
     rule_matcolors(c, prog)
     rule_brick(c, prog)
+    rule_selfdesc(c, prog)
     from . import C17_domain
     C17_domain.run(c, prog, which=("tags", "matcolors"))
     c.not_decided += ["value-exact survival through serde_json / bincode / rmp-serde (third-party number formatting)", "re-encoding equality of the allValues.json fixture"]
